@@ -96,6 +96,7 @@ def run(ck, fb):
     r01s(ck, fb)
     ck.borrow('rules.c02', {'R02s': 'R01u'}, 'an acknowledged write whose log record is cut by a later preallocation step is missing after the restart')
     r01t(ck, fb)
+    r01w(ck, fb)
     ck.borrow('rules.c19', {'R19h': 'R01q'}, 'a request served while the restore is still running is applied on top of a state that is about to be overwritten by it')
     ck.borrow('rules.c20', {'R20g': 'R01p'}, 'a snapshot whose header record is longer than one read chunk must still be readable at start-up, otherwise everything it covers is missing after the restart')
     ck.borrow('rules.c08', {'R08h': 'R01k'}, 'the start-up restore loads the catalogued snapshot whatever the last-applied index says')
@@ -929,3 +930,31 @@ def r01t(ck, fb, R='R01t'):
                 any(a[0] == 'call' and (a[1] or '').endswith('is_empty') and a[2] is True for a in atoms)
             ck.require(t_ok and h_ok, R, 'build_snapshot:left-out-only-if-never-applied', x.where(i),
                        'an entry can be left out of the snapshot although it has applied history (%s)' % [cfg.fmt_atom(a) for a in atoms])
+
+
+def r01w(ck, fb, R='R01w'):
+    ck.rule(R, 'a deadline survives a snapshot as the instant it names: DirectCacheManager::build_snapshot stores the entry\'s absolute expire second '
+               '(`timeout` of the record is a plain copy of `expire`) and load_snapshot_record hands that value to do_set unchanged - no clock is '
+               'read on either side. A remaining-time encoding re-based on the loader\'s clock gives every entry its remaining life back whenever an '
+               'old snapshot is loaded: a console session or API token that expired long ago is accepted again after a restart or an install')
+    DC = 'rnacos::cache::core::DirectCacheManager::'
+    b = ck.body(DC + 'build_snapshot', R)
+    if b:
+        ws = [(x, bb, st) for x in util.region(fb, b) for (o, f, bb, st) in x.field_writes() if f == 'timeout' and o.endswith('DirectCacheItemDo')]
+        ck.floor(R, 'assignments of the record\'s timeout in build_snapshot', len(ws), 1)
+        for (x, bb, st) in ws:
+            rv = st['rv']
+            d = cfg.strip_calls(x, cfg.describe_operand(x, rv['op'])) if rv['k'] in ('use', 'cast') else {'k': rv['k']}
+            ck.require(d['k'] == 'place' and d['fields'][-1:] == ['expire'], R, 'build_snapshot:timeout=expire', x.where(bb),
+                       'the record\'s timeout is not the entry\'s absolute expire second (it is computed: %s)' % d['k'], 'plain copy of expire')
+    l = ck.body(DC + 'load_snapshot_record', R)
+    if l:
+        ds = l.calls(re.escape(DC + 'do_set') + '$')
+        ck.floor(R, 'do_set in load_snapshot_record', len(ds), 1)
+        for s0 in ds:
+            d = cfg.strip_calls(l, cfg.describe_operand(l, s0.args[3])) if len(s0.args) > 3 else {'k': '?'}
+            ck.require(d['k'] == 'place' and d['fields'][-1:] == ['timeout'], R, 'load_snapshot_record:expire=timeout', s0.where(),
+                       'the loaded entry\'s expire second is not the stored value (it is computed: %s)' % d['k'], 'plain copy of timeout')
+        clock = [s0 for x in util.region(fb, l) for s0 in x.calls(r'now_second|now_millis|SystemTime::now|Local::now')]
+        ck.require(not clock, R, 'load_snapshot_record:no-clock', clock[0].where() if clock else l.where(),
+                   'load_snapshot_record reads the clock: what a loaded entry means depends on when the snapshot is loaded')
